@@ -582,6 +582,13 @@ Proof.
   replace (x / sigma / a) with (x / (sigma * a)) by (field; lra). lra.
 Qed.
 
+(* scale 0: (0 f) is the zero functional, prox_{sigma 0 f} = prox_0 = id and the prox of its convex conjugate (indicator of {0}) is 0;
+   the code as repaired (and the model: 0 * _) returns 0 *)
+Lemma scaled_moreau_zero prox pcc : (forall x, prox 0 x = x) -> moreau (sc_prox 0 prox) (sc_pcc 0 pcc).
+Proof.
+  intros H0 sigma x Hs. unfold sc_prox, sc_pcc. rewrite Rmult_0_r, H0. lra.
+Qed.
+
 Lemma scaled_cmoreau a prox pcc : 0 < a -> cmoreau prox pcc -> cmoreau (sc_prox a prox) (csc_pcc a pcc).
 Proof.
   intros Ha H sigma x Hs. unfold sc_prox, csc_pcc.
